@@ -98,17 +98,16 @@ int main(void){
 #endif
     if (kf){ uk_cover("known-finding-class"); goto cleanup; }
   }
+  if (!same_scheme) uk_cover("schemes-differ"); else if (same_auth) uk_cover(root ? "same-authority-domain-root" : "same-authority-relative");
 #ifdef P_C10
   if (!same_scheme){
     uk_assert(dl == sn, "C10: with differing schemes the reference is the source unchanged (length)");
     if (dl == sn) for (i = 0; i < sn; i++) uk_assert(dtext[i] == st[i], "C10: with differing schemes the reference is the source unchanged");
-    uk_cover("schemes-differ");
   } else if (!(!ss.has_auth && bs.has_auth)) {
     /* a reference without scheme can resolve to S */
     uk_assert(D.scheme.first == 0, "C10: the reference omits the scheme shared with the base");
     uk_assert(host_set(&D) == !same_auth, "C10: the reference omits the authority exactly when source and base share user info, host and port");
     if (same_auth && root && (ss.has_auth || ss.abs_path)) uk_assert(D.absolutePath == URI_TRUE, "C10: in domain-root mode the reference path is absolute");
-    if (same_auth) uk_cover(root ? "same-authority-domain-root" : "same-authority-relative");
   }
   /* inverse of resolution */
   rc = U(uriAddBaseUriExMm)(&T, &D, &B, URI_RESOLVE_STRICTLY, &mm);
